@@ -30,6 +30,7 @@ type drv struct {
 	src map[string]string
 	// what the pool held when a block was offered (for signatures)
 	lastPool []string
+	nblk     int // blocks manufactured for this node
 }
 
 func newDriver() core.Driver { return &drv{} }
@@ -45,6 +46,7 @@ func (d *drv) Reset(env *core.Env, b *core.Behaviour) error {
 	d.rnd = rand.New(rand.NewSource(env.Seed*7919 + h + int64(env.OptInt("salt", 0))*104729))
 	d.txs, d.prof = nil, nil
 	d.src = map[string]string{}
+	d.nblk = 0
 	lo, hi := int64(1), int64(1)
 	if len(b.Steps) > 0 && b.Steps[0].Op() == "Cfg" {
 		lo, hi = int64(b.Steps[0].Int("lo")), int64(b.Steps[0].Int("hi"))
@@ -188,7 +190,8 @@ func (d *drv) peer(s core.Step) (any, any, error) {
 	}
 	fork := s.Op() == "Fork"
 	ph := height
-	bits := workBits(0)
+	d.nblk++
+	bits := workBits(0, d.nblk)
 	if fork {
 		if height <= trunkH {
 			return nil, nil, fmt.Errorf("Fork with no block above the trunk")
@@ -197,7 +200,7 @@ func (d *drv) peer(s core.Step) (any, any, error) {
 		if err != nil {
 			return nil, nil, err
 		}
-		bits = workBits(workExp(old.Block.Difficulty) + 1)
+		bits = workBits(workExp(old.Block.Difficulty)+1, d.nblk)
 		ph = height - 1
 	}
 	pd, err := d.n.Chain.GetBlock(ph)
